@@ -16,6 +16,8 @@ def describe(tier):
         "every common x new_common x copy x order), union/intersection/difference_update (entry-wise set algebra within the exclusivity precondition), INDX save+load, "
         "from_array(to_array()); observations get/items/to_dict(force=True), common_rowids. Each transition runs the real method on an object rebuilt from the state "
         "key and compares to_array(dtype=int) and an independent reader with the NumPy model; operands byte-identical; copies share no storage. "
+        "From every state additionally: read through every reader (slices1d, to_array, items, to_dict, common_rowids, abscissae, sparsity, a count cube), change the SAME object in place "
+        "(shift_common every way, append, single-cell update) and read through every reader again - anything the index memoises must follow the change. "
         "Violating transitions are reported and not expanded." % (b["R"], b.get("R1", b["R"]), b["C"], b["prec_max"]),
         "assumptions": [
             ("thorough tier: states with more than 4 cells are expanded only while their values stay inside {0,1,2} (every transition into a state outside that bound is still checked); "
